@@ -27,6 +27,39 @@ class Unsupported(Exception):
     pass
 class StepBudget(Exception):
     pass
+class HangDetected(StepBudget):
+    """a loop header was reached twice with an identical state: the loop cannot terminate"""
+    pass
+
+def state_sig(v, seen=None, depth=0):
+    """structural signature of a value graph (used to recognise a repeated loop state)"""
+    if seen is None: seen = {}
+    if v is None or isinstance(v, (bool, int, float, str, bytes)): return v
+    if is_sym(v): return ('z3', v.get_id())
+    if isinstance(v, tuple): return tuple(state_sig(x, seen, depth + 1) for x in v)
+    i = id(v)
+    if i in seen: return ('cyc', seen[i])
+    seen[i] = len(seen)
+    if depth > 40: return ('deep',)
+    if isinstance(v, RString): return ('S', tuple(state_sig(x, seen, depth + 1) for x in v.c))
+    if isinstance(v, RVec): return ('V', tuple(state_sig(x, seen, depth + 1) for x in v.v))
+    if isinstance(v, Agg):
+        if isinstance(v.f, AutoFields): return ('auto',)
+        return ('A', str(v.tag), tuple(state_sig(x, seen, depth + 1) for x in v.f))
+    if isinstance(v, Ref):
+        try: tgt = v.o[v.k]
+        except (IndexError, KeyError): tgt = None
+        return ('R', state_sig(tgt, seen, depth + 1))
+    if isinstance(v, Slice): return ('L', v.lo, v.hi, tuple(state_sig(x, seen, depth + 1) for x in v.items()))
+    if isinstance(v, RMap): return ('M', tuple((state_sig(k, seen, depth + 1), state_sig(x, seen, depth + 1)) for k, x in v.items))
+    if isinstance(v, Opaque): return ('O', v.what, state_sig(v.data, seen, depth + 1) if isinstance(v.data, (tuple, list, dict)) is False else repr(v.data)[:200])
+    if isinstance(v, list): return tuple(state_sig(x, seen, depth + 1) for x in v)
+    d = getattr(v, '__dict__', None)
+    if d is not None: return (type(v).__name__, tuple((k, state_sig(x, seen, depth + 1)) for k, x in sorted(d.items()) if k != 'f'))
+    return (type(v).__name__,)
+class EndPath(Exception):
+    """a stub ends the path normally (what lies beyond is outside the harness's claim)"""
+    def __init__(self, reason): Exception.__init__(self, reason); self.reason = reason
 class ProcessExit(Exception):
     def __init__(self, code): Exception.__init__(self, 'exit'); self.code = code
 
@@ -526,9 +559,19 @@ class Interp:
         blocks = fn.blocks
         bb = 0
         ctx = self.ctx
+        visits = None
         try:
             while True:
                 blk = blocks[bb]
+                if visits is None: visits = {}
+                vc = visits.get(bb, 0) + 1
+                visits[bb] = vc
+                if (3 <= vc <= 6) or (vc >= 16 and vc % 16 == 0):
+                    sigs = visits.setdefault('sigs', {})
+                    sg = (bb, ctx.nfork, len(ctx.inputs), state_sig(L))
+                    if sg in sigs:
+                        raise HangDetected('loop state repeats in ' + fn.name)
+                    sigs[sg] = 1
                 self.steps += len(blk)
                 if self.steps > self.step_budget:
                     raise StepBudget('step budget exhausted in ' + fn.name)
@@ -666,6 +709,10 @@ class Interp:
             if h is not None:
                 return h(self, argv, callee)
         if kind == 'fn':
+            if st:
+                h = st.get(obj.name)
+                if h is not None:
+                    return h(self, argv, callee)
             return self.exec_fn(obj, argv)
         if kind == 'model':
             return obj(self, argv, callee)
